@@ -54,6 +54,7 @@ struct thr {
 	int in_sig;
 	int frozen_was;
 	unsigned long yields;
+	unsigned long empt[256]; int nempt;	/* steps at which this thread's store buffer became empty */
 };
 
 static struct thr T[MAXT];
@@ -279,6 +280,7 @@ static void sb_flush_one(struct thr *t)
 	mem_store(e->addr, e->size, e->val);
 	memmove(&t->sb[0], &t->sb[1], sizeof(t->sb[0]) * (t->sbn - 1));
 	t->sbn--;
+	if (!t->sbn) t->empt[t->nempt++ & 255] = ds_step;
 }
 static void sb_drain(struct thr *t) { while (t->sbn) sb_flush_one(t); }
 static void sb_drain_all(void) { for (int i = 0; i < nT; i++) if (T[i].state != ST_GONE) sb_drain(&T[i]); }
@@ -394,6 +396,16 @@ static void yield_hint(void)
 void ds_yield(void) { yield_hint(); }
 void urcu_verif_cpu_relax(void) { yield_hint(); }
 int ds_solo_active(void) { return solo_on; }
+int ds_sb_pending(void) { return self ? self->sbn : 0; }
+/* first step >= `step` at which engine thread `tid`'s store buffer was empty again (~0ul: not observed / log wrapped) */
+unsigned long ds_sb_empty_after(int tid, unsigned long step)
+{
+	struct thr *t = &T[tid];
+	if (!t->sbn && (!t->nempt || t->empt[(t->nempt - 1) & 255] < step)) return step;
+	if (t->nempt > 256) return ~0ul;
+	for (int i = 0; i < t->nempt; i++) if (t->empt[i] >= step) return t->empt[i];
+	return ~0ul;
+}
 unsigned long ds_solo_yields(void) { return solo_yields; }
 
 static void block_on(int kind, void *obj)
